@@ -5,13 +5,14 @@ use std::sync::Arc;
 use crate::core::runner::{CheckSpec, Part};
 use crate::core::World;
 use crate::worlds::agent::AgentWorld;
+use crate::worlds::dlrt::DlrtWorld;
 
 fn agent(focus: &'static str, name: &'static str) -> Arc<dyn World> {
     Arc::new(AgentWorld { focus, name })
 }
 
 pub fn world_names() -> Vec<&'static str> {
-    vec!["agent-c01", "agent-c02", "agent-c03", "agent-c04", "agent-c05", "agent-c14", "agent-c20", "agent-mix"]
+    vec!["agent-c01", "agent-c02", "agent-c03", "agent-c04", "agent-c05", "agent-c14", "agent-c20", "agent-mix", "dlrt-value", "dlrt-map"]
 }
 
 pub fn world_by_name(name: &str) -> Option<Arc<dyn World>> {
@@ -24,6 +25,8 @@ pub fn world_by_name(name: &str) -> Option<Arc<dyn World>> {
         "agent-c14" => agent("C14", "agent-c14"),
         "agent-c20" => agent("C20", "agent-c20"),
         "agent-mix" => agent("MIX", "agent-mix"),
+        "dlrt-value" => Arc::new(DlrtWorld { map: false }),
+        "dlrt-map" => Arc::new(DlrtWorld { map: true }),
         _ => return None,
     })
 }
@@ -47,6 +50,9 @@ pub fn spec_for(property: &str) -> Option<CheckSpec> {
         "C04" => CheckSpec { property: "C04", level: "exploration", parts: vec![part("agent-c04", 3000, 300_000), part("agent-mix", 1000, 100_000)], assumptions: a() },
         "C05" => CheckSpec { property: "C05", level: "fault_enumeration", parts: vec![part("agent-c05", 3000, 300_000), part("agent-mix", 1000, 100_000)], assumptions: a() },
         "C20" => CheckSpec { property: "C20", level: "exploration", parts: vec![part("agent-c20", 3000, 300_000), part("agent-mix", 1000, 100_000)], assumptions: a() },
+        "C07" => CheckSpec { property: "C07", level: "exploration", parts: vec![part("dlrt-value", 3000, 300_000), part("dlrt-map", 3000, 300_000)], assumptions: vec![
+            "the downlink runtime is polled as one task; the remote lane and the consumers are scripted harness code speaking the product's codecs over the product's byte channels".into(),
+            "workloads use one writer per map key and clears only in single-writer runs so that 'as if all were sent' is unambiguous".into()] },
         "C14" => CheckSpec { property: "C14", level: "exploration", parts: vec![part("agent-c14", 3000, 200_000), part("agent-mix", 1000, 100_000)], assumptions: a() },
         _ => return None,
     })
